@@ -12,7 +12,7 @@ from harness.common.watchdog import time_limit, Timeout
 ID = "C19"
 MANIFEST = {
     "text": "Lean 4 theorems (Props/C19.lean). Over R: idb(db x)=x, idbm(dbm x)=x for x>0, db(idb y)=y, dbm(idbm y)=y, "
-            "db(x*y)=db x+db y, dbm=db+30, negative input => ValueError; Q(x)+Q(-x)=1, Q antitone, Q(0)=1/2 for every erfc "
+            "db(x*y)=db x+db y, db(x/y)=db x-db y, db(x^n)=n db x, idb(a+b)=idb a*idb b, db and idb strictly increasing, idbm(y)=idb(y-30), dbm=db+30, negative input => ValueError; Q(x)+Q(-x)=1, Q antitone, Q(0)=1/2 for every erfc "
             "with erfc(y)=2*N(0,1)(sqrt2*y,inf) (Gaussian measure); integral of gaus = 1; rcos in [0,1], even, 1/2 at 1/(2T), "
             "0 beyond (1+alpha)/(2T). Exact: dec2bin(v,d) is the d-digit big-endian expansion (length, digits, value, error iff "
             "v>=2^d, loop needs no more than d rounds); the si if-ladder TRANSLATED from utils.py (Gen/SiLadder.lean) tiles "
@@ -816,6 +816,12 @@ def oracle(case, res):
                 s = max(abs(res["db"][i]), abs(res["db_y"][i]), 1.0)
                 if not close(res["db_xy"][i], res["db"][i] + res["db_y"][i], s):
                     v.append(("C19:db(x*y)", f"db({x!r}*{y!r}) = {res['db_xy'][i]!r}, db x + db y = {res['db'][i] + res['db_y'][i]!r}"))
+        # the dB scale preserves order (theorem db_strict_mono); judged with the rounding of 10*log10 allowed for
+        pos = sorted((x, res["db"][i]) for i, x in enumerate(case["x"]) if x > 0 and math.isfinite(res["db"][i]))
+        for (x1, d1), (x2, d2) in zip(pos, pos[1:]):
+            if x1 < x2 and d1 > d2 + 1e-12 * max(1.0, abs(d1), abs(d2)):
+                v.append(("C19:db:monotone", f"{x1!r} < {x2!r} but db = {d1!r} > {d2!r}"))
+                break
         return v
     if k == "idb":
         if res["status"] != "ok":
@@ -832,6 +838,14 @@ def oracle(case, res):
                 v.append(("C19:db(idb)", f"db(idb({y!r})) = {res['db_idb'][i]!r}"))
             if 0 < res["idbm"][i] < math.inf and not close(res["dbm_idbm"][i], y, max(1.0, abs(y))):
                 v.append(("C19:dbm(idbm)", f"dbm(idbm({y!r})) = {res['dbm_idbm'][i]!r}"))
+        # idb is positive and order preserving (theorems idb_add, idb_strict_mono)
+        fin = sorted((y, res["idb"][i]) for i, y in enumerate(case["y"]) if not math.isnan(res["idb"][i]))
+        if any(g < 0 for _, g in fin):
+            v.append(("C19:idb:sign", f"idb returned a negative value: {[g for _, g in fin if g < 0][:3]}"))
+        for (y1, g1), (y2, g2) in zip(fin, fin[1:]):
+            if y1 < y2 and math.isfinite(g1) and g1 > g2 * (1 + 1e-12):
+                v.append(("C19:idb:monotone", f"{y1!r} < {y2!r} but idb = {g1!r} > {g2!r}"))
+                break
         return v
     if k == "dbneg":
         if res["status"] != "ok":
